@@ -142,7 +142,7 @@ ObjsOK(post, ob) == ob.objs = <<>> \/ (Len(ob.objs) = Len(post) /\ \A i \in 1..L
 ResultOK(t, objs, s, ob) ==
   LET cur == objs[s.o + 1] IN
   IF Skipped(objs, s) THEN TRUE ELSE
-  CASE s.op = "marshal" ->
+  CASE s.op \in {"marshal", "marshalc"} ->    \* marshalc: Size, read everything, Marshal{UseCachedSize}: same demand as Marshal
          LET e == MarshalErr(t, cur, s) IN
          /\ ob.r.err = e
          /\ (e = "" => LET d == Decode(t, ob.r.b, EmptyMsg, 10000, FALSE) IN d.ok /\ d.m = cur)
